@@ -512,4 +512,4 @@ MANIFEST = {
     'design_ref': 'DESIGN.md 3/C03',
 }
 MANIFEST['note'] += (' Also decided here (necessary conditions shared between properties or added after the independent '
-                     'change rounds, DESIGN.md 8.7): ICV table (from C07), the controller answers only with what process_message returned, entries removed only when observed DELETED.')
+                     'change rounds, DESIGN.md 8.7): ICV table (from C07), the controller answers only with what process_message returned, entries removed only when observed DELETED. Rounds 7-8: cipher key cut to the cipher\'s key size decided on value terms (who-constructs Crypto).')
